@@ -1,5 +1,6 @@
 import DilithiumVerif.Impl.Packing
 import DilithiumVerif.Lemmas.CodecsFull
+import DilithiumVerif.Lemmas.Containers
 /-
   C16 — Bit-packing is the specification's encoding and is lossless.
   Round trips are proved on the faithful Impl forms (i32 shifts/ORs/casts), per group of coefficients.
@@ -59,5 +60,49 @@ theorem codec_params : ∀ p ∈ allParams,
   decide
 
 example : t1_unpack_group (t1_pack_group [1023, 0, 513, 1]) = [1023, 0, 513, 1] := by decide
+
+/-! ## Containers: unpack ∘ pack = id (byte layout, offsets and the hint section) -/
+
+open DV.Containers DV.HintCodec in
+/-- public key: ρ ‖ t1Encode(t1) has PUBLICKEYBYTES − (its formula) bytes and decodes to (ρ, t1) -/
+theorem pk_roundtrip (p : Params) (rho : List Nat) (t1 : PolyVec) (hr : rho.length = SEEDBYTES) (hl : t1.length = p.k)
+    (ht : ∀ a ∈ t1, a.length = 256 ∧ ∀ x ∈ a, 0 ≤ x ∧ x < 1024) :
+    ∃ pk, pack_pk p rho t1 = .ok pk ∧ pk.length = SEEDBYTES + p.k * POLYT1 ∧ unpack_pk p pk = .ok (rho, t1) :=
+  unpack_pack_pk p rho t1 hr hl ht
+
+open DV.Containers in
+/-- secret key: ρ ‖ K ‖ tr ‖ s1 ‖ s2 ‖ t0 decodes to the six parts (η per level: 2, 4, 2) -/
+theorem sk_roundtrip (p : Params) (hp : p ∈ allParams) (rho tr key : List Nat) (t0 s1 s2 : PolyVec)
+    (hr : rho.length = SEEDBYTES) (hk : key.length = SEEDBYTES) (htr : tr.length = p.trBytes)
+    (hl1 : s1.length = p.l) (hl2 : s2.length = p.k) (hl0 : t0.length = p.k)
+    (h1 : ∀ a ∈ s1, a.length = 256 ∧ ∀ x ∈ a, -(etaB p.lvl) ≤ x ∧ x ≤ etaB p.lvl)
+    (h2 : ∀ a ∈ s2, a.length = 256 ∧ ∀ x ∈ a, -(etaB p.lvl) ≤ x ∧ x ≤ etaB p.lvl)
+    (h0 : ∀ a ∈ t0, a.length = 256 ∧ ∀ x ∈ a, -4096 < x ∧ x ≤ 4096) :
+    ∃ sk, pack_sk p rho tr key t0 s1 s2 = .ok sk ∧ unpack_sk p sk = .ok (rho, tr, key, t0, s1, s2) :=
+  unpack_pack_sk p hp rho tr key t0 s1 s2 hr hk htr hl1 hl2 hl0 h1 h2 h0
+
+open DV.Containers DV.HintCodec in
+/-- signature: c̃ ‖ z ‖ hints written into a zeroed SIGNBYTES buffer has SIGNBYTES bytes and decodes — with the hint
+    decoder accepting — to exactly (c̃, z, h), for every z in (−γ1, γ1] and every 0/1 hint vector with at most ω ones
+    (`idxOf h` = the index list that gets written). -/
+theorem sig_roundtrip (p : Params) (hp : p ∈ allParams) (ct : List Nat) (z h : PolyVec) (hct : ct.length = p.ctilde)
+    (hzl : z.length = p.l) (hz : ∀ a ∈ z, a.length = 256 ∧ ∀ x ∈ a, -(gamma1Of p.lvl) < x ∧ x ≤ gamma1Of p.lvl)
+    (hhl : h.length = p.k) (hh : ∀ a ∈ h, Bits a) (hw : (idxOf h).length ≤ p.omega) :
+    ∃ sig, pack_sig p (ct ++ List.replicate (p.sigBytes - p.ctilde) 0) none z h = .ok sig ∧ sig.length = p.sigBytes ∧
+      unpack_sig p sig = .ok (true, ct, z, h) :=
+  unpack_pack_sig p hp ct z h hct hzl hz hhl hh hw
+
+open DV.HintCodec in
+/-- the hint section by itself (FIPS 204 Alg. 20/21): what the packing loops write, and that the decoding loops return
+    the vector it was written from -/
+theorem hint_section_roundtrip (omega : Nat) (ho : omega ≤ 255) (h : List Poly) (hb : ∀ hp ∈ h, Bits hp) (hw : (idxOf h).length ≤ omega) :
+    hint_area_go omega h 0 0 (List.replicate (omega + h.length) 0)
+      = .ok (idxOf h ++ List.replicate (omega - (idxOf h).length) 0 ++ cumsOf 0 h) ∧
+    unpack_hints_go omega (idxOf h ++ List.replicate (omega - (idxOf h).length) 0 ++ cumsOf 0 h) h.length 0 0 [] = .ok (some h) := by
+  constructor
+  · have := pack_hints omega ho h 0 0 [] [] rfl rfl (by omega) (fun a ha => (hb a ha).1)
+    simpa [List.replicate_append_replicate] using this
+  · have := unpack_hints omega ho h 0 0 [] [] [] rfl rfl (by omega) hb
+    simpa using this
 
 end DV.C16
